@@ -304,10 +304,8 @@ impl<'a> Sess<'a> {
     /// probe characters for term t: every end point of its derivative classes, the neighbours just outside,
     /// an interior point, 0 and MAXC, plus both ends of every atom of the reference alphabet
     pub fn probe_chars(&mut self, t: RegLan) -> Vec<u32> {
-        let mut v = vec![0, MAXC];
-        for cs in t.char_ranges() {
-            let lo = cs.pick();
-            let hi = lo + (cs.size() - 1);
+        let ranges = ranges_of(t);
+        let of_class = |v: &mut Vec<u32>, lo: u32, hi: u32| {
             v.push(lo);
             v.push(hi);
             v.push(lo + (hi - lo) / 2);
@@ -317,36 +315,45 @@ impl<'a> Sess<'a> {
             if hi < MAXC {
                 v.push(hi + 1);
             }
+        };
+        let mut v = vec![0, MAXC];
+        if ranges.len() <= 64 {
+            for &(lo, hi) in &ranges {
+                of_class(&mut v, lo, hi);
+            }
+        } else {
+            // hundreds of classes (wide unions): the classes at both ends, those whose index is next to a power of two,
+            // and a random sample
+            let n = ranges.len();
+            let mut idx: Vec<usize> = vec![0, 1, 2, n - 3, n - 2, n - 1];
+            let mut p = 8usize;
+            while p <= n + 1 {
+                idx.extend([p - 2, p - 1, p, p + 1].into_iter().filter(|&d| d < n));
+                p *= 2;
+            }
+            for _ in 0..24 {
+                idx.push(self.rng.usize(n));
+            }
+            for i in idx {
+                of_class(&mut v, ranges[i].0, ranges[i].1);
+            }
         }
+        // both ends of every atom of the reference alphabet (of a sample of 120 atoms when there are more)
         let a = self.ctx.atoms();
-        for k in 0..a.n() {
-            v.push(a.lo[k]);
-            v.push(a.hi(k));
+        if a.n() <= 120 {
+            for k in 0..a.n() {
+                v.push(a.lo[k]);
+                v.push(a.hi(k));
+            }
+        } else {
+            for _ in 0..120 {
+                let k = self.rng.usize(a.n());
+                v.push(a.lo[k]);
+                v.push(a.hi(k));
+            }
         }
         v.sort_unstable();
         v.dedup();
-        // terms with hundreds of classes (wide unions): both ends of the alphabet, the break points of the classes
-        // whose index is next to a power of two, and a random sample
-        if v.len() > 400 {
-            let ranges = ranges_of(t);
-            let mut keep: Vec<u32> = v[..6].to_vec();
-            keep.extend_from_slice(&v[v.len() - 6..]);
-            let mut p = 8usize;
-            while p <= ranges.len() + 1 {
-                for d in [p - 2, p - 1, p, p + 1] {
-                    if let Some(&(lo, hi)) = ranges.get(d) {
-                        keep.extend_from_slice(&[lo.saturating_sub(1), lo, hi, (hi + 1).min(MAXC)]);
-                    }
-                }
-                p *= 2;
-            }
-            for _ in 0..150 {
-                keep.push(v[self.rng.usize(v.len())]);
-            }
-            keep.sort_unstable();
-            keep.dedup();
-            return keep;
-        }
         v
     }
 
@@ -393,6 +400,8 @@ pub fn for_programs(
         rep.inc("programs");
         rep.sample(|| format!("[{}] {}", prof.name(), prog.to_text().replace('\n', "; ")));
         let t0 = std::time::Instant::now();
+        // programs with loop bounds beyond 2^20: closure enumerations are given up (the case skipped) after 50 ms
+        let _restore = if prog.has_huge_bound() { Some(Restore(CLOSURE_MS.swap(50, std::sync::atomic::Ordering::Relaxed))) } else { None };
         let r = guard(|| f(&prog, seed, rep));
         let el = t0.elapsed().as_millis() as u64;
         rep.max("program_wall_ms", el);
@@ -403,6 +412,34 @@ pub fn for_programs(
             }
         }
         if let Err(msg) = r {
+            if panic_in_harness(&msg) {
+                rep.harness_error(format!("monitor panicked: {}", msg));
+            } else {
+                rep.violation("panic", "panic-unguarded", format!("crate panicked outside a guarded call: {}", msg), KIND_MGR, &prog.to_text(), seed);
+            }
+        }
+    }
+}
+
+struct Restore(u64);
+impl Drop for Restore {
+    fn drop(&mut self) {
+        CLOSURE_MS.store(self.0, std::sync::atomic::Ordering::Relaxed);
+    }
+}
+
+/// short programs around loops with upper bounds next to u32::MAX, each handed to `f` under a panic guard
+pub fn for_max_loop_programs(p: &Params, rep: &mut Report, count: u64, mut f: impl FnMut(&Program, u64, &mut Report)) {
+    let mut rng = p.rng(0x4D41);
+    // nearly every term of these programs has an astronomically large closure: a closure enumeration is given up
+    // (the case skipped) after 50 ms instead of the usual budget
+    let usual = CLOSURE_MS.swap(50, std::sync::atomic::Ordering::Relaxed);
+    let _restore = Restore(usual);
+    for _ in 0..count {
+        let prog = max_loop_program(&mut rng);
+        let seed = rng.next();
+        rep.inc("max_bound_loop_programs");
+        if let Err(msg) = guard(|| f(&prog, seed, rep)) {
             if panic_in_harness(&msg) {
                 rep.harness_error(format!("monitor panicked: {}", msg));
             } else {
